@@ -20,6 +20,10 @@ TABLES = {
     "gtf": dict(dc=("bionumpy.datatypes", "GTFEntry"), buf=("bionumpy.io.delimited_buffers", "GTFBuffer"),
                 cols=[("chromosome", "id"), ("source", "str"), ("feature_type", "id"), ("start", "int"), ("stop", "int"), ("score", "str"),
                       ("strand", "strand"), ("phase", "str"), ("atributes", "str")]),
+    "bed12": dict(dc=("bionumpy.datatypes", "Bed12"), buf=("bionumpy.io.delimited_buffers", "Bed12Buffer"),
+                  cols=[("chromosome", "id"), ("start", "int"), ("stop", "int"), ("name", "id"), ("score", "int"), ("strand", "strand"),
+                        ("thick_start", "int"), ("thick_end", "int"), ("item_rgb", "str"), ("block_count", "int"),
+                        ("block_sizes", "ilist"), ("block_starts", "ilist")]),
     "fasta2": dict(dc=("bionumpy.datatypes", "SequenceEntry"), buf=("bionumpy.io.one_line_buffer", "TwoLineFastaBuffer"),
                    cols=[("name", "id"), ("sequence", "str")]),
     "mfasta": dict(dc=("bionumpy.datatypes", "SequenceEntry"), buf=("bionumpy.io.multiline_buffer", "MultiLineFastaBuffer"),
@@ -46,6 +50,10 @@ def declare_table(V, skel):
                 V.int(f"t{r}_{c}", lo, hi)
             elif kind == "strand":
                 V.int(f"t{r}_{c}", 0, 2)
+            elif kind == "ilist":                      # w = number of elements of the list
+                lo, hi = skel.get("int_range", [0, 12])
+                for j in range(w):
+                    V.int(f"t{r}_{c}_{j}", lo, hi)
             elif kind == "qualv":
                 for j in range(w):
                     V.int(f"t{r}_{c}_{j}", 0, 93)
@@ -67,6 +75,9 @@ def build_table(ctx, skel, x, rows=None):
             cols[nm] = ctx.arr([x[f"t{r}_{c}"] for r in rows], "int64")
         elif kind == "strand":
             cols[nm] = EncodedArray(ctx.arr([x[f"t{r}_{c}"] for r in rows], "uint8"), StrandEncoding)
+        elif kind == "ilist":
+            flat = [x[f"t{r}_{c}_{j}"] for r in rows for j in range(skel["rows"][r][c])]
+            cols[nm] = RaggedArray(ctx.arr(flat, "int64"), [skel["rows"][r][c] for r in rows])
         elif kind == "qualv":
             flat = [x[f"t{r}_{c}_{j}"] for r in rows for j in range(skel["rows"][r][c])]
             cols[nm] = RaggedArray(ctx.arr(flat, "uint8"), [skel["rows"][r][c] for r in rows])
@@ -116,6 +127,7 @@ class Write(Harness):
              "chromsizes": [[[1, 0], [4, 0]]],
              "vcf": [[[1, 0, 1, 1, 2, 1, 1, 3]], [[2, 0, 1, 2, 1, 1, 4, 1], [1, 0, 2, 1, 1, 1, 1, 2]]],
              "gtf": [[[1, 2, 1, 0, 0, 1, 0, 1, 3], [2, 1, 4, 0, 0, 1, 0, 1, 1]]],
+             "bed12": [[[1, 0, 0, 1, 0, 0, 0, 0, 1, 0, 2, 2], [2, 0, 0, 1, 0, 0, 0, 0, 1, 0, 1, 1], [1, 0, 0, 2, 0, 0, 0, 0, 1, 0, 3, 3]]],
              "fasta2": [[[1, 1]], [[2, 3], [1, 1]]],
              "fastq": [[[1, 1, 1]], [[2, 3, 3], [1, 1, 1]], [[1, 2, 2], [1, 1, 1], [2, 2, 2]]]}
         for tab, rowsets in T.items():
@@ -126,8 +138,14 @@ class Write(Harness):
                     # one write; a split in the middle; leading / trailing empty pieces (header must still appear once)
                     splits = [(), (n // 2,)] + ([(0,), (0, 0)] if tab in ("vcf", "bed3") else []) + ([(n,)] if tab == "bed3" else [])
                     splits = [s for i, s in enumerate(splits) if s not in splits[:i]]
+                if tab == "bed12":
+                    splits = [(), (1,), (1, 2)] if tier == "quick" else splits
                 for cuts in splits:
                     sk = dict(table=tab, rows=rows, cuts=list(cuts))
+                    if tab == "bed12":
+                        sk["int_range"] = [0, 9]            # seven integer columns per row: one digit each keeps the path count down
+                        out.append(sk)
+                        continue
                     if tab == "bed3" and n == 2:
                         sk["int_range"] = [-12, 12] if tier == "quick" else [-120, 1200]
                     if tier == "thorough":
@@ -136,6 +154,8 @@ class Write(Harness):
                         hi = 10 ** 4 if n_int <= 2 else (1200 if n_int <= 4 else 120)
                         sk["int_range"] = [-hi, hi] if tab == "bed3" and n_int <= 4 else [0, hi]
                     out.append(sk)
+        # a short first record followed by a much wider integer (read-back through the right-aligned digit windows)
+        out.append(dict(table="bed3", rows=[[1, 0, 0], [1, 0, 0]], cuts=[], int_range=[0, 1200]))
         for w in (2, 3):
             for lens in ([w - 1], [w], [w + 1], [2 * w, 1], [w, w + 1, 2 * w - 1]) + (([3 * w], [2 * w + 1, w]) if tier == "thorough" else ()):
                 rows = [[1, L] for L in lens if L > 0]
@@ -198,6 +218,8 @@ class Write(Harness):
                     row.append(("int", g(f"t{r}_{c}"), 1 if (tab == "vcf" and nm == "position") else 0))
                 elif kind == "strand":
                     row.append(("strand", g(f"t{r}_{c}")))
+                elif kind == "ilist":
+                    row.append(("ilist", cell(c)))
                 else:
                     row.append(("text", cell(c)))
             lines.append(row)
@@ -240,6 +262,19 @@ class Write(Harness):
                     if len(gc) != 1:
                         return False
                     conj.append(TI(gc[0]) == z3.If(ec[1] == 0, 43, z3.If(ec[1] == 1, 45, 46)))
+                elif ec[0] == "ilist":
+                    # elements in canonical decimal joined by ',' (the commas are concrete bytes of the output)
+                    parts, cur = [], []
+                    for b in gc:
+                        if isinstance(b, int) and b == 44:
+                            parts.append(cur); cur = []
+                        else:
+                            cur.append(b)
+                    parts.append(cur)
+                    if len(parts) != len(ec[1]) or any(not p for p in parts):
+                        return False
+                    for p_, e_ in zip(parts, ec[1]):
+                        conj.append(canonical_text_post(e_, len(p_), p_))
                 else:
                     if not gc:
                         return False
@@ -287,6 +322,8 @@ class Write(Harness):
                     exp += [v + 33 for v in cell[1]]
                 elif cell[0] == "strand":
                     exp += [ord("+-."[cell[1]])]
+                elif cell[0] == "ilist":
+                    exp += list(",".join(str(v) for v in cell[1]).encode())
                 else:
                     exp += list(str(cell[1] + cell[2]).encode())
                 exp += [9] if k < len(line) - 1 else [10]
